@@ -705,7 +705,9 @@ impl Oracle {
         }
         self.gen_of_pub.insert(self.wk, fs.gen);
         let exp = rec_words(self.wk);
-        if fs.words != exp {
+        // (a file shorter than 72 bytes with an intact header is taken over in place; the record then
+        // lives beyond EOF in the shared page and is only visible through a mapping: see the fresh reader below)
+        if fs.len >= 72 && fs.words != exp {
             self.viol("C17", "published-bytes", format!("file words {:?} after publishing record {}", fs.words, self.wk));
         }
         // C04d / C16: new clients can attach after the first publication
